@@ -348,7 +348,7 @@ def c10(ctx):
                 seg += 1
                 impl = e["impl"]
             segs.append(seg)
-            impl_of.append(impl)
+            impl_of.append(e["impl"] if e["ev"] in ("ForeignIndex", "Adversary") else impl)
         bad = set()
         for line, fields in mism:
             e = trace[line - 1]
